@@ -29,7 +29,10 @@ LEVEL_NOTE = ("The lock-step theorem excludes histories with lost blobs (dropBlo
               "minValidate / rerunOnce / loadFault in the modelled code, well-formed builds (WF, dependency lists = direct dependencies "
               "without duplicates, declared outputs disjoint from inputs and check files over the whole history). A read fault on a stored "
               "target result while dependencies are loaded is injected in-process (overlay test with a failing backend). The handlers' "
-              "local-digest short cut (restore from a matching workspace file without the blob) is not modelled.")
+              "local-digest short cut (restore from a matching workspace file without the blob) is not modelled. Output checks that read "
+              "a dependency's output are outside the lock-step theorem (OutDisc.chk: check files are not declared outputs); they are "
+              "generated (family depchecks), the divergence they exposed is repaired (dependency outputs are loaded before the "
+              "pre-execution checks, Fixes.checkDeps) and kept as check_reads_dependency_witness.")
 TECHNIQUE = "Lean 4 proof over an executable model + lock-step history correspondence (all vs minimal) with the real CLI"
 OBLIGATIONS = [
     "Grog.C15.same_decision_step",
@@ -40,13 +43,14 @@ OBLIGATIONS = [
     "Grog.C15.same_verdict_and_execs_holds",
     "Grog.C15.nocache_rerun_witness",
     "Grog.C15.load_fault_witness",
+    "Grog.C15.check_reads_dependency_witness",
 ]
 ASSUMPTIONS = [
     "lock-step theorem: histories without lost blobs (no dropBlob step; CasOK at the start), well-formed builds (BuildOK)",
     "cache key injective (C09), restore exact (C06), atomic per-target steps",
 ]
 
-FAMILIES_QUICK = [("edits", 2), ("wipe", 4), ("lostblob", 4), ("dirs", 2), ("alias", 2), ("aliaswipe", 3), ("nocache", 3), ("tamper", 1), ("disabled", 2), ("taint", 2), ("collector", 2), ("run", 4), ("fanout", 3)]
+FAMILIES_QUICK = [("edits", 2), ("wipe", 4), ("lostblob", 4), ("dirs", 2), ("alias", 2), ("aliaswipe", 3), ("nocache", 3), ("tamper", 1), ("disabled", 2), ("taint", 2), ("collector", 2), ("run", 4), ("fanout", 3), ("depchecks", 3)]
 FAMILIES_THOROUGH = [(f, n * 15) for f, n in FAMILIES_QUICK]
 
 
